@@ -33,6 +33,9 @@ rej = sorted(glob.glob(V + '/seeded_rejected/*'))
 lines.append("")
 if unc:
     lines.append("%d confirmed seeded change(s) are NOT caught and kept under `/verif/seeded_uncaught/` with the reason (not part of the must-fail corpus)." % len(unc))
+obs = sorted(glob.glob(V + '/seeded_obsolete/*'))
+if obs:
+    lines.append("%d seeded change(s) stopped being a violation when a genuine defect next to them was repaired upstream and are kept under `/verif/seeded_obsolete/` with the reason: %s." % (len(obs), ', '.join(os.path.basename(d) for d in obs)))
 if rej:
     lines.append("%d proposed change(s) were judged not to violate the property in any reachable state and are kept under `/verif/seeded_rejected/` with the reason: %s." % (len(rej), ', '.join(os.path.basename(d) for d in rej)))
 lines.append("")
